@@ -10,6 +10,9 @@ theorem stepM_generic (s : SysM) (ev : EvM) (h : ∀ i, ev ≠ .endMerge i) :
   | endMerge i => exact absurd rfl (h i)
   | _ => simp only [SysM.step, stepG_eq]
 
+theorem explicitOk_of_plain (s : Sys) (ev : Ev) (h : isPlain ev = true) : ExplicitOk s ev := by
+  cases ev <;> first | trivial | (simp [isPlain] at h)
+
 theorem sys_eta (s : Sys) : s = ⟨s.st, s.running, s.stamp, s.nextId⟩ := by cases s; rfl
 
 theorem stepM_plain (s : SysM) (a : Abs) (ev : EvM) (hp : isPlain ev.toEv = true)
@@ -17,7 +20,7 @@ theorem stepM_plain (s : SysM) (a : Abs) (ev : EvM) (hp : isPlain ev.toEv = true
   have hne : ∀ i, ev ≠ .endMerge i := by
     intro i h; subst h; simp [EvM.toEv, isPlain] at hp
   have hrun1 : ((s.view none).step ev.toEv).running = none := step_plain_running _ _ hp
-  obtain ⟨hI1, hR1⟩ := step_all (s.view none) a ev.toEv hI.base hR
+  obtain ⟨hI1, hR1⟩ := step_all (s.view none) a ev.toEv hI.base hR (explicitOk_of_plain _ _ hp)
   obtain ⟨hle, hids⟩ := plain_ids (s.view none) ev.toEv hp
   rw [stepM_generic s ev hne, hrun1]
   simp only [Option.toList_none, List.append_nil]
@@ -31,7 +34,7 @@ theorem stepM_plain (s : SysM) (a : Abs) (ev : EvM) (hp : isPlain ev.toEv = true
     · intro r hr
       show Inv (⟨_, some r, _, _⟩ : Sys)
       rw [← step_plain_view s (some r) ev.toEv hp]
-      exact (step_all (s.view (some r)) a ev.toEv (hI.each r hr) hR).1
+      exact (step_all (s.view (some r)) a ev.toEv (hI.each r hr) hR (explicitOk_of_plain _ _ hp)).1
     · intro r hr m hm
       obtain ⟨h1, h2⟩ := hI.fresh r hr m hm
       refine ⟨Nat.lt_of_lt_of_le h1 hle, ?_⟩
@@ -49,7 +52,7 @@ theorem stepM_plain (s : SysM) (a : Abs) (ev : EvM) (hp : isPlain ev.toEv = true
 theorem stepM_start (s : SysM) (a : Abs) (ids : List Nat) (hI : InvM s) (hR : RelM s a) :
     InvM (s.step (.startMerge ids)) ∧ RelM (s.step (.startMerge ids)) (a.step (.startMerge ids)) := by
   have hnone : (s.view none).running = none := rfl
-  obtain ⟨hI1, hR1⟩ := step_all (s.view none) a (.startMerge ids) hI.base hR
+  obtain ⟨hI1, hR1⟩ := step_all (s.view none) a (.startMerge ids) hI.base hR trivial
   rw [stepM_generic s (.startMerge ids) (fun i h => by cases h)]
   simp only [EvM.toEv]
   cases hrun : ((s.view none).step (.startMerge ids)).running with
@@ -133,5 +136,95 @@ theorem stepM_start (s : SysM) (a : Abs) (ids : List Nat) (hI : InvM s) (hR : Re
         rw [hmid m' hm']
         exact Nat.ne_of_lt h1
     · exact hR1
+
+theorem stepM_startExplicit (s : SysM) (a : Abs) (ids : List Nat) (hI : InvM s) (hR : RelM s a)
+    (hok : ExplicitOk (s.view none) (.startMergeExplicit ids)) :
+    InvM (s.step (.startMergeExplicit ids)) ∧ RelM (s.step (.startMergeExplicit ids)) (a.step (.startMergeExplicit ids)) := by
+  have hnone : (s.view none).running = none := rfl
+  obtain ⟨hI1, hR1⟩ := step_all (s.view none) a (.startMergeExplicit ids) hI.base hR hok
+  rw [stepM_generic s (.startMergeExplicit ids) (fun i h => by cases h)]
+  simp only [EvM.toEv]
+  cases hrun : ((s.view none).step (.startMergeExplicit ids)).running with
+  | none =>
+    have heq := startMergeExplicit_none_eq (s.view none) ids hnone hrun
+    rw [heq]
+    simp only [Option.toList_none, List.append_nil]
+    exact ⟨hI, hR⟩
+  | some r0 =>
+    obtain ⟨hst, hid, ⟨d, hd⟩, hsrc, hnil, hcont, _, hmid⟩ := startMergeExplicit_shape (s.view none) ids hnone r0 hrun
+    simp only [Option.toList_some]
+    have hstep : (s.view none).step (.startMergeExplicit ids) = ⟨s.st, some r0, s.stamp + d, s.nextId + 1⟩ := by
+      rw [sys_eta ((s.view none).step (.startMergeExplicit ids)), hrun, hst, hid, hd]
+      rfl
+    rw [hst, hid, hd]
+    have hst' : (s.view none).st = s.st := rfl
+    have hid' : (s.view none).nextId = s.nextId := rfl
+    have hsd' : (s.view none).stamp = s.stamp := rfl
+    simp only [hst', hid', hsd']
+    rw [hstep] at hI1 hR1
+    constructor
+    · refine { base := ?_, each := ?_, fresh := ?_, srclt := ?_, notsrc := ?_, distinct := ?_ }
+      · exact inv_clear_running _ hI1
+      · intro r hr
+        rw [List.mem_append, List.mem_singleton] at hr
+        rcases hr with hr | rfl
+        · exact inv_bump (s.view (some r)) (hI.each r hr) d
+        · exact hI1
+      · intro r hr m hm
+        rw [List.mem_append, List.mem_singleton] at hr
+        rcases hr with hr | rfl
+        · obtain ⟨h1, h2⟩ := hI.fresh r hr m hm
+          exact ⟨Nat.lt_succ_of_lt h1, h2⟩
+        · have hm' := hmid m hm
+          refine ⟨by rw [hm']; exact Nat.lt_succ_self _, ?_⟩
+          intro e he heq
+          simp only [allEntries, List.mem_append] at he
+          have : e.segId < s.nextId := by
+            rcases he with (he | he) | he
+            · exact (hI.base.wf e (List.mem_append_left _ he)).2.2
+            · exact (hI.base.wf e (List.mem_append_right _ he)).2.2
+            · exact (hI.base.pwf e he).2
+          rw [heq, hm'] at this
+          exact absurd this (Nat.lt_irrefl _)
+      · intro r hr id hid
+        rw [List.mem_append, List.mem_singleton] at hr
+        rcases hr with hr | rfl
+        · exact Nat.lt_succ_of_lt (hI.srclt r hr id hid)
+        · rw [hsrc] at hid
+          obtain ⟨e, he, rfl⟩ := (containsAll_iff _ _).1 hcont id hid
+          exact Nat.lt_succ_of_lt (hI.base.wf e he).2.2
+      · intro r hr r' hr' m hm
+        rw [List.mem_append, List.mem_singleton] at hr hr'
+        rcases hr with hr | rfl
+        · rcases hr' with hr' | rfl
+          · exact hI.notsrc r hr r' hr' m hm
+          · rw [hsrc]
+            intro hin
+            obtain ⟨e, he, heq⟩ := (containsAll_iff _ _).1 hcont _ hin
+            exact (hI.fresh r hr m hm).2 e (by
+              simp only [allEntries, List.mem_append] at he ⊢
+              exact Or.inl he) heq
+        · have hm' := hmid m hm
+          rcases hr' with hr' | rfl
+          · intro hin
+            have := hI.srclt r' hr' _ hin
+            rw [hm'] at this
+            exact absurd this (Nat.lt_irrefl _)
+          · rw [hsrc]
+            intro hin
+            obtain ⟨e, he, heq⟩ := (containsAll_iff _ _).1 hcont _ hin
+            have := (hI.base.wf e he).2.2
+            rw [heq, hm'] at this
+            exact absurd this (Nat.lt_irrefl _)
+      · rw [List.pairwise_append]
+        refine ⟨hI.distinct, List.pairwise_singleton _ _, ?_⟩
+        intro r hr r' hr' m hm m' hm'
+        rw [List.mem_singleton] at hr'
+        subst hr'
+        have h1 := (hI.fresh r hr m hm).1
+        rw [hmid m' hm']
+        exact Nat.ne_of_lt h1
+    · exact hR1
+
 
 end TantivyModel.Merge
